@@ -430,6 +430,8 @@ fn check_events(line: &str, out: &mut CaseOut, desc: &str) -> String {
 // moving between threads in the middle of their rounds (in-process stage).
 
 struct Job {
+    /// encoder jobs carry an encoder as well; their rounds are encode rounds
+    enc: Option<Box<dyn crate::codec::DynEnc + Send>>,
     dec: Box<dyn crate::codec::DynDec + Send>,
     api: crate::codec::Api,
     k: usize,
@@ -509,6 +511,11 @@ fn pool_new_round(job: &mut Job, u: &Universe) {
         &job.originals,
     )
     .expect("reference encode");
+    if job.enc.is_some() {
+        job.given_originals.clear();
+        job.todo = (0..job.k).map(|i| (false, i)).collect();
+        return;
+    }
     // received set: one of the run's position masks, completed if it is too small
     let (ob, rb) = positions(rate, job.k, job.r);
     let mask = *rng.pick(&u.masks);
@@ -563,7 +570,15 @@ fn migration_stage(cfg: &RunCfg, agg: &Mutex<Agg>) {
                     let (api, k, r, size) = pool_config(&mut rng, uni);
                     let mut dec = codec::make_dec(api, 16, 16, size, None).expect("new");
                     dec.reset(k, r, size).expect("reset");
+                    let enc = if rng.chance(1, 3) {
+                        let mut e = codec::make_enc(api, 16, 16, size, None).expect("new");
+                        e.reset(k, r, size).expect("reset");
+                        Some(e)
+                    } else {
+                        None
+                    };
                     let mut job = Box::new(Job {
+                        enc,
                         dec,
                         api,
                         k,
@@ -587,6 +602,29 @@ fn migration_stage(cfg: &RunCfg, agg: &Mutex<Agg>) {
                 while let Ok(Msg::Job(mut job)) = rx.recv() {
                     let res = crate::util::guarded(|| {
                         // one step on this thread
+                        if let Some(enc) = job.enc.as_mut() {
+                            // encoder job: `todo` counts the originals still to add
+                            let n = job.rng.range(1, 4).min(job.todo.len());
+                            for _ in 0..n {
+                                job.todo.remove(0);
+                                let i = job.k - job.todo.len() - 1;
+                                enc.add(&job.originals[i]).map_err(|e| format!("encoder add failed: {e:?}"))?;
+                            }
+                            job.trail.push(format!("t{t}:enc-add{n}"));
+                            if job.todo.is_empty() {
+                                let obs = enc.encode_obs(&[]).map_err(|e| format!("encode failed: {e:?}"))?;
+                                decodes.fetch_add(1, Ordering::Relaxed);
+                                if obs.iter != job.recovery {
+                                    return Err("recovery shards of a moved encoder differ from the sequential reference".to_string());
+                                }
+                                job.trail.push(format!("t{t}:encode-ok"));
+                                job.rounds_left -= 1;
+                                if job.rounds_left > 0 {
+                                    pool_new_round(&mut job, uni);
+                                }
+                            }
+                            return Ok(());
+                        }
                         let n = job.rng.range(1, 4).min(job.todo.len());
                         for _ in 0..n {
                             let (is_rec, i) = job.todo.remove(0);
@@ -660,7 +698,7 @@ fn migration_stage(cfg: &RunCfg, agg: &Mutex<Agg>) {
     let mut o = out.into_inner().unwrap();
     o.evals = decodes.load(Ordering::Relaxed);
     o.add("decoder moves between threads (mid-round or between rounds)", moves.load(Ordering::Relaxed));
-    o.add("decodes verified on moved decoders", decodes.load(Ordering::Relaxed));
+    o.add("rounds verified on moved decoders / encoders", decodes.load(Ordering::Relaxed));
     o.tag("migration-pool");
     for i in 0..decodes.load(Ordering::Relaxed).min(100_000) {
         o.nontrivial.push(mix(0x3160, i));
